@@ -31,21 +31,21 @@ const (
 func (c frameClass) String() string { return [...]string{"pure", "ro-if-DontAutoCreate", "impure"}[c] }
 
 type inferred struct {
-	fn      *ssa.Function
-	subset  int      // index into subsets(nodePs): which *CandidateNode parameters' direct fields it may write
-	nodePs  []string // names of *CandidateNode parameters
-	class   frameClass
-	fresh   []bool // per result: pointer result is fresh-or-nil
-	ctxName string // name of the Context parameter ("" if none)
-	reason  string // why it was demoted
-	override *frameOverride
-	unexpected []string // failing obligations of an overridden function that are not listed
+	fn          *ssa.Function
+	subset      int      // index into subsets(nodePs): which *CandidateNode parameters' direct fields it may write
+	nodePs      []string // names of *CandidateNode parameters
+	class       frameClass
+	fresh       []bool // per result: pointer result is fresh-or-nil
+	ctxName     string // name of the Context parameter ("" if none)
+	reason      string // why it was demoted
+	override    *frameOverride
+	unexpected  []string // failing obligations of an overridden function that are not listed
 	expectedHit []string
-	lastTry bool
-	pureReason string // the obligation that failed when the function was tried as PURE
-	keepsMode bool // (Context, error) results: on success the returned context has the DontAutoCreate of the incoming one
-	allBad  []string
-	con     *Contract
+	lastTry     bool
+	pureReason  string // the obligation that failed when the function was tried as PURE
+	keepsMode   bool   // (Context, error) results: on success the returned context has the DontAutoCreate of the incoming one
+	allBad      []string
+	con         *Contract
 }
 
 func mustParse(s string) ast.Expr {
